@@ -214,6 +214,25 @@ func parseResultType(v ssa.Value, depth int) types.Type {
 }
 
 func successBoxedType(f *ssa.Function) types.Type {
+	return successBoxedTypeN(f, 0)
+}
+
+func successBoxedTypeN(f *ssa.Function, depth int) types.Type {
+	// a function that hands back what one static callee returns (a bound method
+	// value's wrapper, a delegating helper): the callee decides
+	if len(f.Blocks) == 1 && depth < 4 {
+		if ret, ok := f.Blocks[0].Instrs[len(f.Blocks[0].Instrs)-1].(*ssa.Return); ok && len(ret.Results) == 2 {
+			e0, ok0 := ret.Results[0].(*ssa.Extract)
+			e1, ok1 := ret.Results[1].(*ssa.Extract)
+			if ok0 && ok1 && e0.Tuple == e1.Tuple && e0.Index == 0 && e1.Index == 1 {
+				if call, ok := e0.Tuple.(*ssa.Call); ok {
+					if g := call.Call.StaticCallee(); g != nil && g.Blocks != nil {
+						return successBoxedTypeN(g, depth+1)
+					}
+				}
+			}
+		}
+	}
 	var t types.Type
 	for _, b := range f.Blocks {
 		ret, ok := b.Instrs[len(b.Instrs)-1].(*ssa.Return)
